@@ -156,8 +156,13 @@ theorem checkLiquidation_ext (e : Engine M) (sym : Nat) (c : Candle) : EExt e (c
     | exact EExt.refl _
     | (rename_i k w' h
        exact EExt.trans (show EExt e { e with w := w' } from submit_err_ext h) (fail_ext _ _))
-    | (rename_i w' h
+    | (rename_i w' h _ last hl
        refine EExt.trans ?_ (executeOrder_ext u _ _)
+       refine EExt.trans ?_ (ComposeLemmas.updatePartialCandle_w _ sym last)
+       exact EExt.trans (show EExt e { e with w := w', via := e.via ++ [none], storage := upd e.storage sym (· ++ [e.w.orders.length]), liquidations := e.liquidations + 1 } from submit_ok_ext h)
+          (EExt.trans (logE_ext _ _) (logE_ext _ _)))
+    | (rename_i w' h _ hl
+       refine EExt.trans ?_ (fail_ext _ _)
        exact EExt.trans (show EExt e { e with w := w', via := e.via ++ [none], storage := upd e.storage sym (· ++ [e.w.orders.length]), liquidations := e.liquidations + 1 } from submit_ok_ext h)
           (EExt.trans (logE_ext _ _) (logE_ext _ _)))
 
